@@ -516,7 +516,13 @@ def run(rep):
     st = [n for n in ast.walk(ib) if isinstance(n, (ast.Assign, ast.AugAssign)) and any(
         isinstance(t, ast.Attribute) and t.attr == '_v_cached_hash'
         for t in (n.targets if isinstance(n, ast.Assign) else [n.target]))]
-    okst = all(n in list(ast.walk(h)) for n in st)
+    owners = set()
+    for n in st:
+        for fn_ in ast.walk(ib):
+            if isinstance(fn_, (ast.FunctionDef, ast.AsyncFunctionDef)) and \
+                    any(x is n for x in ast.walk(fn_)):
+                owners.add(fn_.name)
+    okst = owners <= {'__hash__'}
     rep.check('R12.2', 'InterfaceBase.__hash__', ok and okst,
               'hash((self.__name__, self.__module__)) computed on a memo miss, '
               'stored and returned; memo written only in __hash__ (%s) %s'
